@@ -180,7 +180,7 @@ fn main() {
       let _ = GLOBAL_PROPERTY.set(prop.clone());
       let ctx = Ctx::from_args(&prop, &tier);
       let mut check = Check::new(ctx);
-      check.run_witnesses(&|r| run_replay(r));
+      check.run_witnesses(&|r| if r.engine.starts_with("E3") { Some(vcore::Failure::new(&r.property, vcore::FOREIGN_ENGINE, "witness of another engine")) } else { run_replay(r) });
       check.run_regressions(&|r| run_replay(r));
       let _ = OPEN_FINDINGS.set(check.findings.findings.iter().filter(|f| f.status == "open").map(|f| f.id.clone()).collect());
       let (rule, assumptions): (String, Vec<String>) = match prop.as_str() {
